@@ -11,8 +11,8 @@ RULE = (
     "Exhaustive: all strings over {a,b,c} and lists over {1,2,3} up to a "
     "length bound (quick 4, thorough 6) x all index arguments in [-9, 9] for "
     "s[i], s[a to b], s[a to *], substr/sublist with 1 and 2 bounds, "
-    "find/find_last for every part of length <= 2 (with and without an "
-    "in-range start), insert_at, delete_at, element assignment, and the "
+    "find/find_last for every part of length <= 2 (without and with a "
+    "start in [-3, n+2]), insert_at, delete_at, element assignment, and the "
     "identities s[0 to k] + s[k to *] == s, length(a + b) == length(a) + "
     "length(b); plus Hypothesis-generated longer sequences and indices up to "
     "+-10^6. Oracle: a sequence model written from the statement (normalise "
@@ -21,8 +21,10 @@ RULE = (
     "position < 0, >= n, or crossing bounds."
 )
 ASSUMPTIONS = [
-    "find/find_last: parts are non-empty; explicit start only with "
-    "0 <= start < n (documented: search from / back from that position)",
+    "find/find_last: parts are non-empty; an explicit start is the position "
+    "to search from / back from (documented); starts in [-3, n+2] are "
+    "judged: a start outside [0, n) names no position and never wraps around "
+    "(find searches from 0, find_last finds nothing before the beginning)",
     "insert_at follows its documentation: index -1 appends, -(n+1) prepends",
     "element assignment stores one character into a string position",
 ]
@@ -54,8 +56,8 @@ def m_slice(s, a, b=None):
 def m_find(s, part, start=0):
     n = len(s)
     if isinstance(s, str):
-        return ("ok", s.find(part, start))
-    for i in range(start, n):
+        return ("ok", s.find(part, max(start, 0)))
+    for i in range(max(start, 0), n):
         if mv.meq(s[i], part):
             return ("ok", i)
     return ("ok", -1)
@@ -141,11 +143,14 @@ def ops_for(s, indices, parts_, full=True):
         P = lit(p)
         yield ("find", f"find({L}, {P})", m_find(s, p), False)
         yield ("find_last", f"find_last({L}, {P})", m_find_last(s, p), False)
-        for st in range(0, n):
+        for st in range(-3, n + 3):
+            # a start outside [0, n) names no position: nothing lies before
+            # the beginning (find clamps, find_last finds nothing) or beyond
+            # the end, and the search never wraps around
             yield ("find-start", f"find({L}, {P}, start = {st})",
-                   m_find(s, p, st), st > 0)
+                   m_find(s, p, st), st > 0 or st < 0)
             yield ("find_last-start", f"find_last({L}, {P}, start = {st})",
-                   m_find_last(s, p, st), st < n - 1)
+                   m_find_last(s, p, st), st < n - 1 or st >= n)
     for k in range(0, n + 1):
         yield ("split-identity", f"{L}[0 to {k}] + {L}[{k} to *] == {L}",
                ("ok", True), False)
